@@ -273,6 +273,16 @@ def wl_events(spec, ctx, mods):
                                                       r.choice([5e-10, -5e-10, 1e-12,
                                                                 -1e-12, 3e-9, -3e-9]))]]))
                 est = est[est >= 0]
+            elif r.random() < 0.12 and ref.size:
+                # integer-typed reference (whole seconds), fractional estimates
+                ref = np.unique(np.round(ref)).astype(np.int64)
+                est = np.sort(np.array([x + r.choice([0, 0.25, 0.5, 0.703125, -0.296875,
+                                                      0.75, -0.5, 1.25])
+                                        for x in ref for _ in range(r.choice([1, 1, 2]))]))
+                est = est[est >= 0]
+                w = r.choice([0.5, 0.25, 0.75, 1.0])
+                if r.random() < 0.3:
+                    ref, est = est, ref  # integer-typed estimate instead
             m1 = util.match_events(ref, est, w)
             pr = list(range(ref.size)); r.shuffle(pr)
             pe = list(range(est.size)); r.shuffle(pe)
@@ -303,7 +313,7 @@ def wl_events(spec, ctx, mods):
                             [0, 0.25, -0.25, 0.5, -0.5, 0.625, 12, -12, 11.75, 1]))
                     else:
                         es.append(r.randrange(40 * 8, 90 * 8) / 8.0)
-                if chroma:
+                if chroma and r.random() < 0.7:
                     base = [x % 12 for x in base]
                     es = [x % 12 for x in es]
                     if r.random() < 0.3 and base:
